@@ -78,6 +78,7 @@ func (mc *c19Machine) fail(t *rapid.T, f string, a ...any) {
 // verifyAll runs Verify with every key of the pool (plus nil) and applies the
 // invariants of the current envelope state.
 func (mc *c19Machine) verifyAll(t *rapid.T) {
+	otherTrafficEvery(3) // unrelated encodes / decodes happen between the operation and its verification
 	keys := c19Keys()
 	for i, k := range keys {
 		err := mc.ev.Verify(k.Pub)
